@@ -31,7 +31,7 @@ func c08InmemStack(cache bool) *c08Stack {
 		st.Ground = nil
 		var c physical.Cache
 		if cache {
-			c = physical.NewCache(c08UnderCache(b, st.Hooks), 0, logger, &metrics.BlackholeSink{})
+			c = physical.NewCache(c08UnderCache(b, st.Hooks), st.CacheSize, logger, &metrics.BlackholeSink{})
 			c.SetEnabled(true)
 			b = c
 		}
